@@ -1,6 +1,6 @@
 """C07 - an abandoned request (timeout, dropped stream) never harms the server."""
 from checks import servers
-from checks.common import swarm
+from checks.common import swarm, exc_choice
 from checks.c02_server_results import check_outcomes, shrink as shrink2
 
 ID = 'C07'
@@ -49,7 +49,7 @@ def gen(rng, tier):
         allx = [op['x'] for c in callers for op in c['ops'] if op['op'] == 'call'] + [x for c in callers for op in c['ops'] if op['op'] == 'stream' for x in op['xs']]
         if allx:
             lf = rng.choice(servers.leaves(tree))
-            lf['fail'] = {'xs': sorted(rng.sample(allx, min(len(allx), rng.choice([1, 2, 4, 8])))), 'exc': rng.choice(['ExcA', 'ExcB', 'KeyError'])}
+            lf['fail'] = {'xs': sorted(rng.sample(allx, min(len(allx), rng.choice([1, 2, 4, 8])))), 'exc': exc_choice(rng, ['ExcA', 'ExcB', 'KeyError'])}
     sc = {'tree': tree, 'capacity': rng.choice([1, 1, 1, 2, 3, 4, 8]), 'async': is_async, 'callers': callers,
           'post': [next(nxt) for _ in range(rng.choice([1, 2, 3]))]}
     cfg = swarm(rng, racy=0.6, line=0.4, max_time=500.0, max_steps=600_000)
